@@ -439,6 +439,9 @@ static RunPlan gen_crash(uint64_t seed, int tier)
 			}
 		} else {
 			for (auto& o : gen_mutations(rng, p.cfg, (int)rng.range(2, 6))) p.ops.push_back(o);
+			// a whole disk emptied (replaced, wiped): its freed blocks are only remembered by the content files the
+			// interrupted sync writes
+			if (p.cfg.disks.size() >= 2 && rng.chance(1, 5)) p.ops.push_back(Json::obj().set("k", "empty_disk").set("d", (int64_t)rng.below(p.cfg.disks.size())));
 		}
 		CmdSpec s = gen_sync_variant(rng, p.cfg);
 		// kill-after-sync never saves: pointless here
